@@ -101,9 +101,9 @@ RootPath(k) == << <<"r", ToString(k), "">> >>
 
 \* ------------------------------------------------------------------ Run
 Init ==
-  /\ prog \in 1..Len(Programs)
+  /\ prog \in Range(Programs)
   /\ act = <<>> /\ sem = 0 /\ exec = <<>> /\ cancelled = {}
-  /\ calls = [t \in DOMAIN Programs[prog].tasks |-> 0]
+  /\ calls = [t \in DOMAIN prog.tasks |-> 0]
   /\ root = [st |-> "start", k |-> 0, gerr |-> NoErr]
   /\ MonInit
 
